@@ -91,9 +91,10 @@ Definition get_active_chord (ch : chordv2) (since coord : N) (release_found : bo
   mkach coord (if c2_first_release ch then [] else c2_keys ch) (c2_keys ch) (c2_action ch)
         (if release_found && c2_first_release ch then AUnreadReleased else AUnread) since.
 
+(* no room for another active chord (heapless Vec of 10): nothing is activated, the keys are left to the layout *)
 Definition push_active (a : active_chord) (c : chv2) : outcome chv2 :=
   if Nat.ltb (length (cv_active c)) 10 then Ok (set_cv_active (cv_active c ++ [a]) c)
-  else Panic "chords v2: active chords has room".
+  else Ok (no_chord_activations c).
 
 Definition min_pending (l : list chordv2) (m : N) : N := fold_left (fun acc ch => N.min acc (c2_pending ch)) l m.
 Definition push16 {A} (x : A) (l : list A) : list A := if Nat.ltb (length l) SMOL_Q_LEN then l ++ [x] else l.
